@@ -116,7 +116,7 @@ class VerusUnit:
                     res.append(entry)
         return res
 
-    def run(self, rlimit=30, extra=None, threads=None):
+    def run(self, rlimit=30, extra=None, threads=None, multiple_errors=100):
         os.makedirs(self.workdir, exist_ok=True)
         text = self.assemble()
         path = os.path.join(self.workdir, 'unit_%s.rs' % self.name)
@@ -126,7 +126,7 @@ class VerusUnit:
         r.unit_path = path
         r.trusted = self.scan_trusted(text)
         r.labels = [lab for (_, _, lab) in self.ranges]
-        cmd = [VERUS, path, '--output-json', '--time', '--multiple-errors', '100',
+        cmd = [VERUS, path, '--output-json', '--time', '--multiple-errors', str(multiple_errors),
                '--error-format=json', '--rlimit', str(rlimit), '--no-report-long-running']
         if threads:
             cmd += ['--num-threads', str(threads)]
